@@ -269,17 +269,44 @@ Section Loops.
     end.
 End Loops.
 
+(* the leaf parsers bundled (so that statements about the loops can quantify over one object) *)
+Record leaves : Type := Leaves {
+  l_len : nat;
+  l_not_mech : nat -> bool; l_alt : nat -> ares; l_subtitle_at : nat -> bool;
+  l_skip_eos : nat -> option nat; l_term : nat -> tres;
+  l_close_at : nat -> bool; l_ul_subtitle : nat -> option nat; l_mika : nat -> option (nat * list crange);
+  l_sect_elem : nat -> eres; l_blank_lines : nat -> nat; l_ws0 : nat -> nat;
+  l_title : nat -> option (nat * list crange) }.
+
+Definition L_mech_step (L : leaves) : nat -> nat -> list crange -> mstep :=
+  mech_step (l_len L) (l_not_mech L) (l_alt L) (l_subtitle_at L) (l_skip_eos L) (l_term L).
+Definition L_mech_code (L : leaves) : nat -> list crange -> option mres :=
+  mech_code (l_len L) (l_not_mech L) (l_alt L) (l_subtitle_at L) (l_skip_eos L) (l_term L).
+Definition L_section (L : leaves) : nat -> list crange -> option sres :=
+  section (l_len L) (l_not_mech L) (l_alt L) (l_subtitle_at L) (l_skip_eos L) (l_term L)
+          (l_close_at L) (l_ul_subtitle L) (l_mika L) (l_sect_elem L) (l_blank_lines L).
+Definition L_body_loop (L : leaves) : nat -> nat -> list crange -> option sres :=
+  body_loop (l_len L) (l_not_mech L) (l_alt L) (l_subtitle_at L) (l_skip_eos L) (l_term L)
+            (l_close_at L) (l_ul_subtitle L) (l_mika L) (l_sect_elem L) (l_blank_lines L).
+Definition L_parse (L : leaves) : outcome :=
+  parse (l_len L) (l_not_mech L) (l_alt L) (l_subtitle_at L) (l_skip_eos L) (l_term L)
+        (l_close_at L) (l_ul_subtitle L) (l_mika L) (l_sect_elem L) (l_blank_lines L) (l_ws0 L) (l_title L).
+
 (* ---------- a concrete instance: the source "⸥" (graphemes ["⸥"; "\n"]) ----------
    nothing but the stray close bracket: every leaf fails, mika_section_close succeeds at cursor 0. *)
-Definition stray_len : nat := 2.
 Definition stray_close_at (i : nat) : bool := Nat.eqb i 0.
-Definition stray_alt (i : nat) : ares := AUnexp i i [].
-Definition stray_parse : outcome :=
-  parse stray_len (fun i => stray_close_at i) stray_alt (fun _ => false) (fun k => Some k) (fun j => TErr j j)
-        stray_close_at (fun _ => None) (fun _ => None) (fun i => EErr i i []) (fun j => j) (fun i => i) (fun _ => None).
-Definition stray_body_loop (fuel : nat) : option sres :=
-  body_loop stray_len (fun i => stray_close_at i) stray_alt (fun _ => false) (fun k => Some k) (fun j => TErr j j)
-        stray_close_at (fun _ => None) (fun _ => None) (fun i => EErr i i []) (fun j => j) fuel 0 [].
+Definition stray_leaves : leaves :=
+  Leaves 2 stray_close_at (fun i => AUnexp i i []) (fun _ => false) (fun k => Some k) (fun j => TErr j j)
+         stray_close_at (fun _ => None) (fun _ => None) (fun i => EErr i i []) (fun j => j) (fun i => i) (fun _ => None).
+
+(* ---------- another concrete instance: "x\n" with x one statement (graphemes ["x"; "\n"; "\n"]) ----------
+   mech_code_alt consumes the statement, code_terminal the line end; nothing else matches. *)
+Definition tiny_leaves : leaves :=
+  Leaves 3 (fun _ => false)
+         (fun i => if Nat.eqb i 0 then AOk 1 [] else AUnexp i i [])
+         (fun _ => false) (fun k => Some k)
+         (fun j => if Nat.eqb j 1 then TOk 3 else if Nat.eqb j 3 then TOk 3 else TErr j j)
+         (fun _ => false) (fun _ => None) (fun _ => None) (fun i => EErr i i []) (fun j => j) (fun i => i) (fun _ => None).
 
 (* ====================================================================== *)
 (* (C) the judge                                                           *)
@@ -336,11 +363,15 @@ Fixpoint table_okb (bs : list bline) (lens ws : list Z) : bool :=
 
 (* ---- decoding the observation ---- *)
 Inductive ptag : Type := TgOk | TgErr | TgPanic.
+(* one record of the guarded hook's log: (site, cursor_before, cursor_after, source_len) *)
+Record hrec : Type := HR { h_site : Z; h_a : Z; h_b : Z; h_len : Z }.
+
 Record pobs : Type := PO {
   po_tag : ptag; po_same : bool;
   po_causes : list srange; po_annots : list srange;
   po_nlines : Z; po_lens : list Z; po_widths : list Z;
-  po_flags : list string }.
+  po_flags : list string;
+  po_hook : list hrec }.          (* empty when the harness is built without the hook: `(hook off)` *)
 
 Inductive robs : Type := RParse (p : pobs) | RHang | ROther.
 
@@ -356,28 +387,61 @@ Definition dec_tag (s : string) : option ptag :=
   if String.eqb s "ok" then Some TgOk else if String.eqb s "err" then Some TgErr
   else if String.eqb s "panic" then Some TgPanic else None.
 
+Definition dec_hrec (x : sx) : option hrec :=
+  match x with
+  | Lx [Zx s; Zx a; Zx b; Zx l] => Some (HR s a b l)
+  | _ => None
+  end.
+
+Definition dec_hook (h : list sx) : option (list hrec) :=
+  match h with
+  | [Ax "off"] => Some []
+  | Zx _ :: es => map_opt dec_hrec es
+  | _ => None
+  end.
+
 Definition dec_obs (x : sx) : robs :=
   match x with
   | Lx [Ax "hang"] => RHang
   | Lx [Ax "parse"; Ax tg; Zx same; Lx (Ax "ranges" :: rs); Zx n; Lx (Ax "linelens" :: ls);
-        Lx (Ax "linewidths" :: ws); Lx (Ax "flags" :: fl); Lx (Ax "info" :: _)] =>
-      match dec_tag tg, map_opt dec_range rs, map_opt sx_Z ls, map_opt sx_Z ws, map_opt sx_word fl with
-      | Some t, Some rr, Some lens, Some widths, Some flags =>
+        Lx (Ax "linewidths" :: ws); Lx (Ax "flags" :: fl); Lx (Ax "info" :: _); Lx (Ax "hook" :: hk)] =>
+      match dec_tag tg, map_opt dec_range rs, map_opt sx_Z ls, map_opt sx_Z ws, map_opt sx_word fl, dec_hook hk with
+      | Some t, Some rr, Some lens, Some widths, Some flags, Some hook =>
           RParse (PO t (Z.eqb same 1) (map snd (filter (fun p => fst p) rr)) (map snd (filter (fun p => negb (fst p)) rr))
-                     n lens widths flags)
-      | _, _, _, _, _ => ROther
+                     n lens widths flags hook)
+      | _, _, _, _, _, _ => ROther
       end
   | _ => ROther
   end.
 
+(* replay of the hook log: every record must satisfy the fact the termination proof assumes / proves at its site
+   (Proofs/ParseLoopP.v, leaf_ok):
+     1 cursor after mech_code_alt or after recovery, 2/3 cursor of a recovered Error/Failure, 4 skip_till_end_of_statement
+     inside mech_code, 5 code_terminal, 9/10/11 skip_till_eol / _end_of_statement / _section_element:  a <= b <= len;
+     6 one iteration of mech_code's loop, 7 of section's loop, 8 of body's loop:                        a <  b <= len;
+     12 code_terminal consumed nothing away from eof: b = 1 iff a mika close bracket is in front. *)
+Definition hrec_okb (h : hrec) : bool :=
+  let s := h_site h in
+  if (s =? 6)%Z || (s =? 7)%Z || (s =? 8)%Z then (0 <=? h_a h)%Z && (h_a h <? h_b h)%Z && (h_b h <=? h_len h)%Z
+  else if (s =? 12)%Z then (h_b h =? 1)%Z && (h_a h <? h_len h)%Z
+  else if ((1 <=? s)%Z && (s <=? 5)%Z) || ((9 <=? s)%Z && (s <=? 11)%Z)
+       then (0 <=? h_a h)%Z && (h_a h <=? h_b h)%Z && (h_b h <=? h_len h)%Z
+  else false.
+
 (* ---- known findings (classes decided from the text alone) ---- *)
-(* mika-close-loop: the text contains the grapheme "⸥" (U+2E25 = E2 B8 A5) *)
-Fixpoint has_mika_close (s : string) : bool :=
-  match s with
-  | String a ((String b (String c _)) as r) =>
-      (Nat.eqb (nat_of_ascii a) 226 && Nat.eqb (nat_of_ascii b) 184 && Nat.eqb (nat_of_ascii c) 165) || has_mika_close r
-  | _ => false
+Fixpoint starts_with (pat s : string) : bool :=
+  match pat, s with
+  | EmptyString, _ => true
+  | String a p', String b s' => Ascii.eqb a b && starts_with p' s'
+  | _, EmptyString => false
   end.
+Fixpoint contains (pat s : string) : bool :=
+  starts_with pat s || match s with EmptyString => false | String _ r => contains pat r end.
+
+(* mika-close-loop: the text contains the grapheme U+2E25 (bytes E2 B8 A5) *)
+Definition mika_close_bytes : string :=
+  String (ascii_of_nat 226) (String (ascii_of_nat 184) (String (ascii_of_nat 165) EmptyString)).
+Definition kf_mika_close (text : string) : bool := contains mika_close_bytes text.
 
 (* exp-nesting: naive nesting depth of ( [ { over the bytes (closers never go below 0) *)
 Definition is_open (n : nat) : bool := Nat.eqb n 40 || Nat.eqb n 91 || Nat.eqb n 123.
@@ -393,8 +457,6 @@ Fixpoint nest_from (d m : nat) (s : string) : nat :=
   end.
 Definition nest_depth (s : string) : nat := nest_from 0 0 s.
 Definition nest_threshold : nat := 6.
-
-Definition kf_mika_close (text : string) : bool := has_mika_close text.
 Definition kf_exp_nesting (text : string) : bool := Nat.leb nest_threshold (nest_depth text).
 
 (* fmt-count-underflow: TextFormatter::format_error computes `errors.0.len() - n` (source length in BYTES minus
@@ -403,22 +465,51 @@ Definition fmt_shown (nerr : Z) : Z := Z.min nerr 10.
 Definition fmt_count (text : string) (nerr : Z) : Z := (byte_lenZ text - fmt_shown nerr)%Z.
 Definition kf_fmt_underflow (text : string) (nerr : Z) : bool := (fmt_count text nerr <? 0)%Z.
 
+(* fenced code blocks: a fence sigil and a tag *)
+Definition has_fence (text : string) : bool := contains "```" text || contains "~~~" text.
+Definition robot_bytes : string :=
+  String (ascii_of_nat 240) (String (ascii_of_nat 159) (String (ascii_of_nat 164) (String (ascii_of_nat 150) EmptyString))).
+(* fence-zero-range: a ```mech / ```mec / ```🤖 block whose code mech_code rejects yields the hand-built
+   ParseError { cause_range: SourceRange::default() } = 0:0-0:0 (mechdown.rs::code_block) *)
+Definition kf_fence_zero (text : string) : bool := has_fence text && (contains "mec" text || contains robot_bytes text).
+(* ebnf-todo-panic: a ```ebnf block whose grammar parse_grammar rejects runs into `todo!()` *)
+Definition kf_ebnf (text : string) : bool := has_fence text && contains "ebnf" text.
+
 (* ---- the verdict ---- *)
 Definition has_flag (f : string) (fl : list string) : bool := existsb (String.eqb f) fl.
 
-(* everything the property fixes about one observation, as a boolean *)
-Definition obs_okb (text : string) (p : pobs) : bool :=
+Definition is_zero (r : srange) : bool :=
+  (sr_r1 r =? 0)%Z && (sr_c1 r =? 0)%Z && (sr_r2 r =? 0)%Z && (sr_c2 r =? 0)%Z.
+Definition range_okb (ws : list Z) (r : srange) : bool := range_withinb ws r && fmt_safeb r.
+
+(* everything the property fixes about one observation except the flags, as a boolean;
+   allow_zero = true tolerates cause ranges that are exactly 0:0-0:0 (finding fence-zero-range) *)
+Definition obs_corb (text : string) (p : pobs) (allow_zero : bool) : bool :=
   let bs := text_lines text in
   po_same p &&
   (po_nlines p =? Z.of_nat (List.length bs))%Z &&
   table_okb bs (po_lens p) (po_widths p) &&
-  forallb (range_withinb (po_widths p)) (po_causes p ++ po_annots p)%list &&
-  forallb fmt_safeb (po_causes p ++ po_annots p)%list &&
-  is_nil (po_flags p) &&
+  forallb (fun r => range_okb (po_widths p) r || (allow_zero && is_zero r)) (po_causes p) &&
+  forallb (range_okb (po_widths p)) (po_annots p) &&
+  forallb hrec_okb (po_hook p) &&
   match po_tag p with
   | TgOk => is_nil (po_causes p) && is_nil (po_annots p)
   | TgErr => negb (is_nil (po_causes p))
   | TgPanic => false
+  end.
+
+Definition obs_okb (text : string) (p : pobs) : bool := obs_corb text p false && is_nil (po_flags p).
+
+(* when does format_error panic (dev profile)?  err_location computes `cause.end.col - 1` for each of the first
+   min(n,10) errors: a 0:0-0:0 cause underflows; then `errors.0.len() - n` *)
+Definition pred_fmtpanic (text : string) (p : pobs) : bool :=
+  existsb is_zero (firstn 10 (po_causes p)) || kf_fmt_underflow text (Z.of_nat (List.length (po_causes p))).
+
+Definition flags_matchb (text : string) (p : pobs) : bool :=
+  match po_flags p with
+  | [] => negb (pred_fmtpanic text p)
+  | [f] => String.eqb f "fmtpanic" && pred_fmtpanic text p
+  | _ => false
   end.
 
 Definition first_bad (text : string) (p : pobs) : string :=
@@ -431,6 +522,7 @@ Definition first_bad (text : string) (p : pobs) : string :=
     else if negb (table_okb bs (po_lens p) (po_widths p)) then "line-table-disagrees-with-text"
     else if negb (forallb (range_withinb (po_widths p)) (po_causes p ++ po_annots p)%list) then "range-outside-input"
     else if negb (forallb fmt_safeb (po_causes p ++ po_annots p)%list) then "range-has-zero-coordinate"
+    else if negb (forallb hrec_okb (po_hook p)) then "hook-progress-invariant-violated"
     else if has_flag "fmtpanic" (po_flags p) then "format_error-panicked"
     else if has_flag "msgpanic" (po_flags p) then "report-message-panicked"
     else if has_flag "emptyreport" (po_flags p) then "empty-error-report"
@@ -441,9 +533,6 @@ Definition first_bad (text : string) (p : pobs) : string :=
          end
   end.
 
-Definition only_flag (f : string) (fl : list string) : bool :=
-  match fl with [g] => String.eqb f g | _ => false end.
-
 Definition judge_parse (text : string) (o : robs) : sx :=
   match o with
   | RHang =>
@@ -452,17 +541,23 @@ Definition judge_parse (text : string) (o : robs) : sx :=
       else v_bad "parser-did-not-return-within-budget" (Ax "ok-or-err")
   | ROther => v_bad "unreadable-or-aborted" (Ax "ok-or-err")
   | RParse p =>
-      if obs_okb text p then v_ok (match po_tag p with TgOk => "tree" | _ => "report" end)
-      else if only_flag "fmtpanic" (po_flags p)
-              && kf_fmt_underflow text (Z.of_nat (List.length (po_causes p)))
-              && obs_okb text (PO (po_tag p) (po_same p) (po_causes p) (po_annots p) (po_nlines p) (po_lens p) (po_widths p) [])
-      then v_kf "fmt-count-underflow"
-      else v_bad (first_bad text p) (Ax "ok-or-err-in-range")
+      match po_tag p with
+      | TgPanic =>
+          if kf_ebnf text && po_same p then v_kf "ebnf-todo-panic"
+          else v_bad "parser-panicked" (Ax "ok-or-err-in-range")
+      | _ =>
+          if obs_okb text p then v_ok (match po_tag p with TgOk => "tree" | _ => "report" end)
+          else if obs_corb text p true && flags_matchb text p then
+            if existsb is_zero (po_causes p) then
+              (if kf_fence_zero text then v_kf "fence-zero-range" else v_bad "range-outside-input" (Ax "ok-or-err-in-range"))
+            else v_kf "fmt-count-underflow"
+          else v_bad (first_bad text p) (Ax "ok-or-err-in-range")
+      end
   end.
 
 Definition judge_c09 (x : sx) : sx :=
   match x with
-  | Lx [Lx [Ax "c09"; Qx text]; o] => judge_parse text (dec_obs o)
+  | Lx [Lx [Ax k; Qx text]; o] => if String.eqb k "c09" then judge_parse text (dec_obs o) else v_malformed
   | _ => v_malformed
   end.
 
